@@ -3,7 +3,7 @@
    checkpoint_if_cancelled() or cancel_shielded_checkpoint() event).  Infinite iterators: every non-empty prefix.
    reduce: documented scope - the awaited callback (Call event) is itself obliged to checkpoint.
    This file contains only statements closed by `exact` and their Print Assumptions. *)
-From AV Require Import Base Itertools ItertoolsProofs ItertoolsTee.
+From AV Require Import Base Itertools ItertoolsProofs ItertoolsTee ItertoolsAlias.
 
 Theorem C08_accumulate_checkpoints : forall (f : Z -> Z -> Z) (initial : option Z) (s : src),
   is_sync (fst s) = true \/ yields (fst (accumulate_model f initial s)) = [] ->
@@ -128,3 +128,9 @@ Theorem C08_reduce_checkpoints : forall (f : Z -> Z -> Z) (initial : option Z) (
   (has_call (fst (reduce_model f initial s)) = false -> has_ck (fst (reduce_model f initial s)) = true).
 Proof. exact reduce_checkpoints. Qed.
 Print Assumptions C08_reduce_checkpoints.
+
+Theorem C08_zip_longest_alias_checkpoints : forall (fill : Z) (kd : ikinds) (st : istore) (ps : list nat),
+  yields (fst (zip_longest_alias_model fill kd st ps)) = [] ->
+  has_ck (fst (zip_longest_alias_model fill kd st ps)) = true.
+Proof. exact zip_longest_alias_checkpoints. Qed.
+Print Assumptions C08_zip_longest_alias_checkpoints.
